@@ -414,8 +414,16 @@ def do_op(w, DataSet, op, real, model, n, dd, where, rng):
         w.verify_population(where, skip=tuple(outs))
     elif op in ("remove", "remove_bad"):
         if op == "remove":
-            idx = sorted(rng.sample(range(n), rng.randint(0, min(n, 4)))) if n else []
+            idx = rng.sample(range(n), rng.randint(0, min(n, 6))) if n else []     # distinct positions in arbitrary order
+            order = rng.random()
+            if order < 0.4:
+                idx = sorted(idx)
+            elif order < 0.55:
+                idx = sorted(idx, reverse=True)
+            if rng.random() < 0.15:
+                idx = [np.int64(i) for i in idx]
             out = call(real.remove_samples, list(idx))
+            idx = [int(i) for i in idx]
             w.n_moving += 1
             keep = [i for i in range(n) if i not in idx]
             mout = model.derive(list(idx))
